@@ -55,13 +55,14 @@ func (s *faultSink) Close() error { return nil }
 
 // source with chunk schedule and fault
 type schedSource struct {
-	data  []byte
-	off   int
-	sched []int
-	calls int
-	rfail int
-	chunk int // when > 0 and the schedule is exhausted: constant chunk size
-	offAtFail int // bytes delivered before the failing call (-1: the call did not happen)
+	data        []byte
+	off         int
+	sched       []int
+	calls       int
+	rfail       int
+	chunk       int  // when > 0 and the schedule is exhausted: constant chunk size
+	offAtFail   int  // bytes delivered before the failing call (-1: the call did not happen)
+	eofWithData bool // the last piece is returned together with io.EOF (n > 0, err = EOF), as iotest.DataErrReader does
 }
 
 func (s *schedSource) Read(b []byte) (int, error) {
@@ -90,6 +91,9 @@ func (s *schedSource) Read(b []byte) (int, error) {
 	}
 	copy(b, s.data[s.off:s.off+n])
 	s.off += n
+	if s.eofWithData && s.off >= len(s.data) {
+		return n, io.EOF
+	}
 	return n, nil
 }
 func (s *schedSource) Close() error { return nil }
